@@ -8,6 +8,10 @@ dashu-base regenerated as Lean text (lean/Dashu/Gen/RootTables.lean):
 equal to the same routines with these literals as parameters — the u32 totality theorem (`prim_root_u32_total`) is about
 exactly those tables and margins, so a change of a table entry or of a margin in the source breaks a theorem (or the
 build) of Props/C12, not only the sampled correspondence.  A change of the shape fails closed.
+Round 6 additions (same target file): every shift amount / mask width / small multiplier of the two u128 root steps
+(`root_u128_steps_regenerated`), and the double-word accumulation expressions of `lehmer_ext_step` / `lehmer_step`
+(integer/src/gcd/lehmer.rs; the rest of both functions is pinned token for token) — `lehmer_ext_step_words_regenerated`,
+`lehmer_step_words_regenerated`.
 Loaded by vlib/extract.py (`gen_root_tables`)."""
 import re, hashlib
 
@@ -118,12 +122,89 @@ def generate(ex):
     stmt(cb, 22, "let mut r = t1 as i128 - t2 as i128; while r < 0 { r += <E> * (c as i128 - <E>) * c as i128 + <E>; c -= <E>; } (c, r as u128)",
          ["cbrt_u128_loop_mul", "cbrt_u128_loop_sub", "cbrt_u128_loop_add", "cbrt_u128_loop_dec"], W)
 
+    # round 6: the two double-word accumulations of `lehmer::lehmer_ext_step` (integer/src/gcd/lehmer.rs) as Lean text; the
+    # rest of the function (asserts, zip/take(len) loop, split_dword, carry hand-over, stores, returned pair) is pinned
+    # token for token — any other edit of the function fails closed.
+    lrel = "integer/src/gcd/lehmer.rs"
+    ltxt = ex.read(lrel)
+    m = re.search(r"fn lehmer_ext_step\(([^)]*)\) -> \(Word, Word\) \{", ltxt)
+    if not m:
+        raise ex.ExtractError("%s: `fn lehmer_ext_step(…) -> (Word, Word)` not found" % lrel)
+    params = re.sub(r"\s+", " ", m.group(1)).strip().rstrip(",")
+    if params != "x: &mut [Word], y: &mut [Word], len: usize, a: Word, b: Word, c: Word, d: Word":
+        raise ex.ExtractError("%s: lehmer_ext_step: parameter list changed: %s" % (lrel, params))
+    lbody = ltxt[m.end():ex.balanced(ltxt, m.end() - 1)]
+    lbody = re.sub(r"\s+", " ", re.sub(r"//[^\n]*", "", lbody)).strip().rstrip("}").strip()
+    shape = ("debug_assert!(len <= x.len() && len <= y.len()); "
+             "debug_assert!(a <= SignedWord::MAX as Word && b <= SignedWord::MAX as Word); "
+             "debug_assert!(c <= SignedWord::MAX as Word && d <= SignedWord::MAX as Word); "
+             "let (a, b) = (extend_word(a), extend_word(b)); let (c, d) = (extend_word(c), extend_word(d)); "
+             "let (mut x_carry, mut y_carry) = (0, 0); "
+             "for (x_i, y_i) in x.iter_mut().zip(y.iter_mut()).take(len) { "
+             "let (sx_i, sy_i) = (extend_word(*x_i), extend_word(*y_i)); "
+             "let (x_new, cx) = split_dword(<ACC>); let (y_new, cy) = split_dword(<ACC>); "
+             "x_carry = cx; y_carry = cy; *x_i = x_new; *y_i = y_new; } (x_carry, y_carry)")
+    rx = re.escape(shape).replace(re.escape("<ACC>"), r"([A-Za-z_0-9 +*()]+?)")
+    mm = re.fullmatch(rx, lbody)
+    if not mm:
+        raise ex.ExtractError("%s: lehmer_ext_step: body is not the pinned shape (asserts; extend_word of a, b, c, d; zip/take(len) loop "
+                              "with two split_dword accumulations; carry hand-over; stores; returned carries)" % lrel)
+
+    def acc(expr, what):
+        e = re.sub(r"extend_word\((x_carry|y_carry)\)", r"\1", expr.strip())
+        toks = re.findall(r"[A-Za-z_][A-Za-z_0-9]*|[+*()]", e)
+        if "".join(toks) != e.replace(" ", "") or any(t not in ("a", "b", "c", "d", "sx_i", "sy_i", "x_carry", "y_carry", "+", "*", "(", ")") for t in toks):
+            raise ex.ExtractError("%s: lehmer_ext_step: %s accumulation `%s` is outside the translated fragment (+, *, a b c d sx_i sy_i, extend_word(carry))" % (lrel, what, expr.strip()))
+        return " ".join(toks).replace("( ", "(").replace(" )", ")")
+
+    acc_x, acc_y = acc(mm.group(1), "x"), acc(mm.group(2), "y")
+
+    # round 6: the two SIGNED double-word accumulations of `lehmer::lehmer_step`; everything else (asserts, zip loop, carry
+    # hand-over, stores, the `if x_carry != 0` fix-up on the top word) pinned token for token.
+    m = re.search(r"pub\(crate\) fn lehmer_step\(([^)]*)\) \{", ltxt)
+    if not m:
+        raise ex.ExtractError("%s: `pub(crate) fn lehmer_step(…)` not found" % lrel)
+    params = re.sub(r"\s+", " ", m.group(1)).strip().rstrip(",")
+    if params != "x: &mut [Word], y: &mut [Word], a: Word, b: Word, c: Word, d: Word":
+        raise ex.ExtractError("%s: lehmer_step: parameter list changed: %s" % (lrel, params))
+    sbody = ltxt[m.end():ex.balanced(ltxt, m.end() - 1)]
+    sbody = re.sub(r"\s+", " ", re.sub(r"//[^\n]*", "", sbody)).strip().rstrip("}").strip()
+    sshape = ("debug_assert!(x.len() >= y.len() && x.len() - y.len() <= 1); "
+              "debug_assert!(a <= SignedWord::MAX as Word && b <= SignedWord::MAX as Word); "
+              "debug_assert!(c <= SignedWord::MAX as Word && d <= SignedWord::MAX as Word); "
+              "let (a, b) = (signed_extend_word(a), signed_extend_word(b)); let (c, d) = (signed_extend_word(c), signed_extend_word(d)); "
+              "let (mut x_carry, mut y_carry) = (0, 0); "
+              "for (x_i, y_i) in x.iter_mut().zip(y.iter_mut()) { "
+              "let (sx_i, sy_i) = (signed_extend_word(*x_i), signed_extend_word(*y_i)); "
+              "let (x_new, cx) = split_signed_dword(<ACC>); let (y_new, cy) = split_signed_dword(<ACC>); "
+              "x_carry = cx; y_carry = cy; *x_i = x_new; *y_i = y_new; } "
+              "if x_carry != 0 { let x_top = x.last_mut().unwrap(); "
+              "debug_assert_eq!(y_carry as SignedDoubleWord, c * signed_extend_word(*x_top)); "
+              "let (x_new, cx) = split_signed_dword(a * signed_extend_word(*x_top) + x_carry as SignedDoubleWord); "
+              "debug_assert_eq!(cx, 0); *x_top = x_new; }")
+    srx = re.escape(sshape).replace(re.escape("<ACC>"), r"([A-Za-z_0-9 +*()\-]+?)")
+    sm = re.fullmatch(srx, sbody)
+    if not sm:
+        raise ex.ExtractError("%s: lehmer_step: body is not the pinned shape (asserts; signed_extend_word of a, b, c, d; zip loop with two "
+                              "split_signed_dword accumulations; carry hand-over; stores; x_top fix-up)" % lrel)
+
+    def sacc(expr, what):
+        e = re.sub(r"\b(x_carry|y_carry) as SignedDoubleWord", r"\1", expr.strip())
+        toks = re.findall(r"[A-Za-z_][A-Za-z_0-9]*|[-+*()]", e)
+        if "".join(toks) != e.replace(" ", "") or any(t not in ("a", "b", "c", "d", "sx_i", "sy_i", "x_carry", "y_carry", "+", "-", "*", "(", ")") for t in toks):
+            raise ex.ExtractError("%s: lehmer_step: %s accumulation `%s` is outside the translated fragment (+, -, *, a b c d sx_i sy_i, carry as SignedDoubleWord)" % (lrel, what, expr.strip()))
+        return " ".join(toks).replace("( ", "(").replace(" )", ")")
+
+    sacc_x, sacc_y = sacc(sm.group(1), "x"), sacc(sm.group(2), "y")
+
     def lean_list(vals):
         rows = [", ".join("0x%02x" % v for v in vals[i:i + 16]) for i in range(0, len(vals), 16)]
         return "[\n  " + ",\n  ".join(rows) + "]"
 
     out = ["/-! GENERATED by vlib/extract.py (vlib/extract_roottabs.py) from /repo — do not edit.  C12: lookup tables and",
-           "    under-estimate margins of the primitive roots (base/src/ring/root.rs) and LOG2_TAB (base/src/math/log.rs). -/",
+           "    under-estimate margins of the primitive roots (base/src/ring/root.rs) and LOG2_TAB (base/src/math/log.rs);",
+           "    round 6: shift amounts of the two u128 root steps; accumulation expressions of lehmer_ext_step / lehmer_step",
+           "    (integer/src/gcd/lehmer.rs). -/",
            "namespace Dashu.Gen", "",
            "/-- `RSQRT_TAB` in %s -/\ndef RSQRT_TAB : List Nat := %s\n" % (rel, lean_list(rsqrt)),
            "/-- `RCBRT_TAB` in %s -/\ndef RCBRT_TAB : List Nat := %s\n" % (rel, lean_list(rcbrt)),
@@ -131,6 +212,16 @@ def generate(ex):
     for name, v, doc in consts:
         out.append("/-- %s (%s) -/\ndef %s : Nat := %d\n" % (doc, rel, name, v))
         info["roottabs_" + name] = v
+    for nm, e, src_e in (("lehmer_ext_step_acc_x", acc_x, mm.group(1).strip()), ("lehmer_ext_step_acc_y", acc_y, mm.group(2).strip())):
+        out.append("set_option linter.unusedVariables false in\n"
+                   "/-- `split_dword(%s)` in lehmer_ext_step (%s); DoubleWord arithmetic as Nat (overflow is the model's concern) -/\n"
+                   "def %s (a b c d sx_i sy_i x_carry y_carry : Nat) : Nat := %s\n" % (src_e, lrel, nm, e))
+        info["roottabs_" + nm] = e
+    for nm, e, src_e in (("lehmer_step_acc_x", sacc_x, sm.group(1).strip()), ("lehmer_step_acc_y", sacc_y, sm.group(2).strip())):
+        out.append("set_option linter.unusedVariables false in\n"
+                   "/-- `split_signed_dword(%s)` in lehmer_step (%s); SignedDoubleWord arithmetic as Int (overflow is the model's concern) -/\n"
+                   "def %s (a b c d sx_i sy_i x_carry y_carry : Int) : Int := %s\n" % (src_e, lrel, nm, e))
+        info["roottabs_" + nm] = e
     out.append("end Dashu.Gen")
     for nm, vals in (("RSQRT_TAB", rsqrt), ("RCBRT_TAB", rcbrt), ("LOG2_TAB", log2)):
         info["roottabs_" + nm] = hashlib.sha1(bytes(vals)).hexdigest()[:12]
